@@ -14,7 +14,7 @@ from ..flow import Flow
 
 UTILS = "typhon/files/utils.py"
 ADVERTISED = {"gz": "gzip.GzipFile", "bz2": "bz2.BZ2File", "zip": "zipfile.ZipFile", "xz": "lzma.LZMAFile"}
-EXPECT = {"C12.names": 2, "C12.table": 8, "C12.cleanup": 3, "C12.commit": 2, "C12.passthrough": 2, "C12.zipname": 3, "C12.writer": 2}
+EXPECT = {"C12.names": 2, "C12.table": 8, "C12.cleanup": 3, "C12.commit": 3, "C12.passthrough": 2, "C12.zipname": 3, "C12.writer": 2}
 
 WRITE_EFFECTS = {"remove", "unlink", "rename", "replace", "truncate", "mknod", "makedirs", "mkdir", "move",
                  "copy", "copy2", "copyfile", "rmtree", "touch", "write_text", "write_bytes", "rmdir", "symlink", "link"}
@@ -407,6 +407,29 @@ def rule_commit(ctx):
     hit = [cfg.describe(w) for w in writers if w in reach]
     ctx.ob("compress.commit", not hit, "compress_as reachable from the exceptional exit of the yield at: %s" % (hit or "nowhere"),
            "unreachable (not in a finally / except / after a swallowed exception)", node=cfg.stmt_of[ynodes[0]], func=f)
+    # ... and a block that ended normally is ALWAYS committed, whatever was written (an empty file is content, too): from the normal exit of
+    # the yield every path reaches compress_as - no statement in between raises or leaves
+    tmpname = norm(cfg.stmt_of[ynodes[0]].value.value).replace(" ", "")
+    labs = sorted({lab for y in ynodes for lab, _ in cfg.succ.get(y, []) if lab not in ("gen", "exc")})
+    before = cfg.reach_from_edges([(y, lab) for y in ynodes for lab in labs], avoid=writers)
+    leaves = []
+    for n in sorted(before, key=str):
+        if n in (ENTRY, EXIT, RAISE) or n not in cfg.stmt_of:
+            continue
+        st = cfg.stmt_of[n]
+        if isinstance(st, (ast.Raise, ast.Return)):
+            from ..flow import guard_chain
+            gtxt = [("%s" if pol else "not (%s)") % norm(t) for t, pol in guard_chain(st)]
+            if isinstance(st, ast.Raise) and gtxt and all(g_.replace(" ", "") in ("notos.path.isfile(%s)" % tmpname, "notos.path.exists(%s)" % tmpname) for g_ in gtxt):
+                continue        # nothing was created at all: compress_as would raise FileNotFoundError itself
+            if not any(w_ in " ".join(gtxt) for w_ in ("getsize", "st_size", ".size", "read(", "len(")) and isinstance(st, ast.Raise):
+                raise AnalysisError("compress: `%s` under %s between the yield and compress_as is not understood" % (norm(st)[:60], gtxt))
+            leaves.append("line %d: %s under %s" % (getattr(st, "lineno", 0), norm(st)[:50], gtxt))
+    skipped = EXIT in before
+    ctx.ob("compress.always", not leaves and not skipped,
+           "between the normal exit of the yield and compress_as: %s%s" % (sorted(set(leaves)) or "nothing leaves", "; the end of the function is reachable without compress_as" if skipped else ""),
+           "every block that ended normally is compressed into the target - no validation of what was written stands in between (an empty file round-trips)",
+           node=cfg.stmt_of[ynodes[0]], func=f, witness=None if (not leaves and not skipped) else {"with compress('x.gz') as tmp": "open(tmp, 'w').close()", "expected": "x.gz holding b''"})
     # nothing else touches the target
     others = []
     for c in calls_in(f.node):
